@@ -288,7 +288,7 @@ func (w *World) RemoteConfig(st *env.Store, withCache bool) *mast.RemoteConfig {
 		}
 		rc.Unmarshal = TaggedUnmarshal
 		rc.UnmarshalerUsesRegisteredTypes = true
-	} else {
+	} else if !cfg.DefaultMarshal {
 		rc.Marshal = func(v interface{}) ([]byte, error) {
 			if w.MshGate != nil {
 				w.MshGate()
